@@ -46,6 +46,18 @@ def make_pool(ns, d):
     w('ea-unknown-op.mos.xml', g.msg_ea('COPY', 'A', sources=[g.id_tag('storyID', 'AB')], msg_id=2030))
     w('not-xml.mos.xml', 'this is not <xml')
     w('unknown.mos.xml', '<mos><heartbeat/></mos>')
+    # valid messages stored in declared non-UTF-8 encodings, and bytes that are no text at all
+    latin = '<?xml version="1.0" encoding="ISO-8859-1"?>' + g.msg_story_append([g.story_xml('E', 0)], msg_id=2011).replace('E slug v0', 'caf\u00e9 slug')
+    with open(os.path.join(d, 'latin1.mos.xml'), 'wb') as f:
+        f.write(latin.encode('latin-1'))
+    files['latin1.mos.xml'] = os.path.join(d, 'latin1.mos.xml')
+    u16 = '<?xml version="1.0" encoding="UTF-16"?>' + g.msg_ro_delete(msg_id=2091)
+    with open(os.path.join(d, 'utf16.mos.xml'), 'wb') as f:
+        f.write(u16.encode('utf-16'))
+    files['utf16.mos.xml'] = os.path.join(d, 'utf16.mos.xml')
+    with open(os.path.join(d, 'binary.mos.xml'), 'wb') as f:
+        f.write(b'\xff\xfe\x00\x01junk\x80\x81')
+    files['binary.mos.xml'] = os.path.join(d, 'binary.mos.xml')
     files['missing.mos.xml'] = os.path.join(d, 'missing.mos.xml')
     os.mkdir(os.path.join(d, 'adir.mos.xml'))
     files['adir.mos.xml'] = os.path.join(d, 'adir.mos.xml')
@@ -63,9 +75,10 @@ def make_pool(ns, d):
 
 
 DETECT_POOL = ['ro.mos.xml', 'completed.mos.xml', 'append.mos.xml', 'roreplace-compact.mos.xml', 'rodelete.mos.xml',
-               'ea-unknown-op.mos.xml', 'not-xml.mos.xml', 'unknown.mos.xml', 'missing.mos.xml', 'adir.mos.xml',
+               'ea-unknown-op.mos.xml', 'not-xml.mos.xml', 'unknown.mos.xml', 'missing.mos.xml', 'adir.mos.xml', 'latin1.mos.xml',
+               'utf16.mos.xml', 'binary.mos.xml',
                'ea-itemmove.mos.xml', 'storysend.mos.xml']
-MERGE_POOL = ['ro.mos.xml', 'append.mos.xml', 'm-fail.mos.xml', 'm-move.mos.xml', 'rodelete.mos.xml']
+MERGE_POOL = ['ro.mos.xml', 'latin1.mos.xml', 'm-fail.mos.xml', 'm-move.mos.xml', 'utf16.mos.xml']
 
 
 def invoke(main, argv):
@@ -127,8 +140,12 @@ def marked_files(text, files, names):
 
 
 def classify(ns, path):
+    """Class the library assigns to the file's content (read here as bytes, so that the expectation does
+    not go through the file constructor the command itself uses)."""
     try:
-        o = ns.mt.MosFile.from_file(path)
+        with open(path, 'rb') as f:
+            data = f.read()
+        o = ns.mt.MosFile.from_string(data)
         return type(o).__name__ + (' (completed)' if o.completed else '')
     except Exception:  # noqa
         return None
@@ -327,7 +344,7 @@ def s3_case(ns, main, files, cls, store, it, res, prop, d):
 def items_for(tier):
     items = []
     L = 3 if tier == 'thorough' else 2
-    pool = DETECT_POOL if tier == 'thorough' else DETECT_POOL[:10]
+    pool = DETECT_POOL if tier == 'thorough' else DETECT_POOL[:13]
     for cmd in ('detect', 'inspect'):
         items.append((cmd, None))
         for n in range(1, L + 1):
@@ -335,7 +352,8 @@ def items_for(tier):
                 items.append((cmd, names))
         if tier == 'quick':
             # length 3 over the interesting core: a bad file in every position
-            core = ['ro.mos.xml', 'completed.mos.xml', 'roreplace-compact.mos.xml', 'not-xml.mos.xml', 'missing.mos.xml', 'adir.mos.xml']
+            core = ['ro.mos.xml', 'completed.mos.xml', 'roreplace-compact.mos.xml', 'not-xml.mos.xml', 'missing.mos.xml', 'adir.mos.xml',
+                    'latin1.mos.xml', 'binary.mos.xml']
             for names in itertools.product(core, repeat=3):
                 items.append((cmd, names))
     from .c08 import canonical_docs
